@@ -454,7 +454,9 @@ def rule_range_gate(ctx, tci):
             if ok:
                 asked = [e[1][0] for e in log_of(paths[0].interp) if e[0] == "nir"]
                 want_asked = members if fail_at is None else members[:fail_at + 1]
-                ok = [id(x) for x in asked] == [id(x) for x in want_asked] and paths[0].value is (fail_at is None)
+                # every note up to the first one out of range is looked at (looking at more is nobody's business), nothing else is
+                ok = [id(x) for x in asked][:len(want_asked)] == [id(x) for x in want_asked] and all(any(x is m_ for m_ in members) for x in asked) \
+                    and paths[0].value is (fail_at is None)
             ctx.check(ok, R, "can_play_notes[%s,fail=%s]" % (label, fail_at), fc.where(), "Instrument.can_play_notes(<%s>)" % label,
                       "must test every note and answer True only if all are in range: %s" % [(p.kind, p.value) for p in paths])
 
